@@ -46,7 +46,7 @@ def _cmp_success(res, clause, got, exp):
 
 
 def _fresh(case, lab, **kw):
-    return build.Built(lab, case["nodes"], case["tabs"], raises=case.get("raises", ()), **kw)
+    return build.Built(lab, case["nodes"], case["tabs"], raises=case["a"].get("raises", ()), **kw)
 
 
 def judge(prop, case, lab):
@@ -503,9 +503,97 @@ def _check_effects(res, log, nodes):
                 res.bad("effect-without-body", "effect %s of dataset node %s ran without its body having run" % (e[1], d))
 
 
+# -- C06 ---------------------------------------------------------------------------------------
+def judge_c06(case, lab):
+    """Laziness: construction runs nothing; every callable that runs during evaluate / validate /
+    keys / explain belongs to a node the reference evaluation visits (selected path only)."""
+    res = Result()
+    a = case["a"]
+    o = dec(a["o"])
+    visited = set(a["visited"])
+    g = _fresh(case, lab)
+    if g.log:
+        res.bad("construction-runs", "building the graph ran %s" % [(e[0], e[1]) for e in g.log][:4])
+    has_callables = any(nd["k"] in ("fnapp", "ds", "apply", "bind") for nd in case["nodes"])
+    res.nontrivial = has_callables and len(visited) < len(case["nodes"])
+    for what in ("evaluate", "validate", "keys", "explain"):
+        gg = _fresh(case, lab)
+        fn = getattr(gg.root, what)
+        observe.call(lambda: fn(copy.deepcopy(o)), lab)
+        extra = [(e[0], e[1], e[3]) for e in gg.log if e[3] and e[3] not in visited]
+        if extra:
+            res.bad("runs-unselected-" + what, "%s ran callables of nodes %s that the selected path does not contain (visited: %s)" % (
+                what, sorted({e[2] for e in extra}), sorted(visited)))
+    return res
+
+
+# -- C12 ---------------------------------------------------------------------------------------
+EXC_KINDS = ("user", "key", "runtime", "evalerr")
+
+
+def judge_c12_group(cases, lab):
+    from labrea.exceptions import EvaluationError
+
+    out = {id(c): Result() for c in cases}
+    if not cases:
+        return []
+    stateful = _stateful(cases[0])
+    for kind in EXC_KINDS:
+        fresh = []
+        for c in cases:
+            res = out[id(c)]
+            a = c["a"]
+            o = dec(a["o"])
+            g = _fresh(c, lab, style={"exc": kind})
+            got = observe.call(lambda: g.root.evaluate(copy.deepcopy(o)), lab, raised=g.raised)
+            fresh.append((o, got))
+            exp = a["eval"]
+            if exp["ok"] or exp["cls"] == "IllTyped":
+                if not exp["ok"]:
+                    continue
+                if not got["ok"]:
+                    res.bad("unexpected-failure[%s]" % kind, "the specification evaluates to a value, got %s" % observe.describe(got))
+                continue
+            res.nontrivial = True
+            if got["ok"]:
+                res.bad("failure-lost[%s]" % kind, "expected failure %s, got value %s" % (exp["cls"], show(got["v"])))
+                continue
+            chain = got["chain"]
+            if not got["is_evaluation_error"] and not got.get("while_forcing"):
+                res.bad("not-evaluation-error[%s]" % kind, "evaluate raised %s, not an EvaluationError" % got["boundary"])
+                continue
+            if chain[0].source is not g.root and not got.get("while_forcing"):
+                res.bad("source[%s]" % kind, "EvaluationError.source is %r, not the object evaluate() was called on" % (chain[0].source,))
+            # which of several simultaneous causes is met first is not fixed (a cache computes its
+            # key -- and meets a missing option -- before it evaluates): the failure must be one
+            # the specification knows for this call (evaluate's, or keys()/validate()'s)
+            alts = [x for x in (exp, a["keys"], a["validate"]) if not x["ok"]]
+            if not any(observe.same_failure(got, exp_failure(x)) for x in alts):
+                res.bad("cause-chain[%s]" % kind, "expected failure %s, got %s" % (
+                    [(x["cls"], sorted(keyset(x.get("keys", []))) or x.get("x", "")) for x in alts], observe.describe(got)))
+            for e in chain:
+                if isinstance(e, EvaluationError) and not isinstance(getattr(e, "source", None), lab.types.Evaluatable):
+                    res.bad("chain-source[%s]" % kind, "an EvaluationError on the chain has source %r" % (getattr(e, "source", None),))
+        if not stateful or any(f[1].get("lazy") for f in fresh):
+            continue
+        # a failed evaluation stores nothing: histories on one long-lived instance
+        for order in _orders(len(cases), canon_nodes(cases[0]) + kind):
+            g = _fresh(cases[0], lab, style={"exc": kind})
+            hist = []
+            for i in order:
+                o, ref = fresh[i]
+                got = observe.call(lambda: g.root.evaluate(copy.deepcopy(o)), lab, raised=g.raised)
+                if not same_outcome(got, ref):
+                    tag = "[coalesce-swallow] " if any(c["a"]["swallows"] for c in cases) else ""
+                    out[id(cases[i])].bad("later-evaluation[%s]" % kind, "%safter %s on the same graph evaluate gives %s; a fresh copy gives %s" % (
+                        tag, hist[-4:], observe.describe(got), observe.describe(ref)))
+                hist.append(o)
+    return [(c, out[id(c)]) for c in cases]
+
+
 JUDGES = {"C04": judge_c04, "C09": judge_c09, "C05": judge_c05, "C10": judge_c10, "C11": judge_c11,
-          "C08": judge_c08}
-GROUP_JUDGES = {"C03": judge_c03_group, "C01": judge_c01_group, "C02": judge_c02_group}
+          "C08": judge_c08, "C06": judge_c06}
+GROUP_JUDGES = {"C03": judge_c03_group, "C01": judge_c01_group, "C02": judge_c02_group, "C12": judge_c12_group}
 
 
 def ill_typed(case):
@@ -520,5 +608,10 @@ def judge_group(prop, cases, lab):
     return [(c, JUDGES[prop](c, lab)) for c in cases]
 
 
-def signature(prop, clause, case):
+def signature(prop, clause, case, detail=""):
+    """Identity of a violation.  Violations that the specification itself attributes to a listed
+    finding class carry that class as their signature (one known-findings entry covers them);
+    every other violation is identified by its clause, graph and dictionary."""
+    if detail.startswith("[coalesce-swallow] ") and clause.startswith("later-evaluation"):
+        return {"class": "coalesce-swallow-stale-entry"}
     return {"clause": clause, "nodes": case["nodes"], "tabs": case["tabs"], "o": case["a"]["o"]}
